@@ -49,13 +49,14 @@ Formula(id, refs) == [k |-> "f", id |-> id, refs |-> refs, keep |-> TRUE, b |-> 
 
 VARIABLES cells,     \* set of [s, r, c, v]  (v: content)
           rowh, colw,  \* sets of <<index, size>> on sheet 1
+          rowst, colst, \* rows / columns of sheet 1 that carry a style of their own (bold)
           links,     \* set of <<r, c>> on sheet 1 carrying a hyperlink
           cf,        \* the conditional-format rule of sheet 1: area [r1, c1, r2, c2, st] and the reference fref of its formula
           names,     \* defined names: set of [name, ref]
           prev,      \* the workbook before the last action (what undo restores)
           trail, steps
-vars == <<cells, rowh, colw, links, cf, names, prev, trail, steps>>
-Book == [cells |-> cells, rowh |-> rowh, colw |-> colw, links |-> links, cf |-> cf, names |-> names]
+vars == <<cells, rowh, colw, rowst, colst, links, cf, names, prev, trail, steps>>
+Book == [cells |-> cells, rowh |-> rowh, colw |-> colw, rowst |-> rowst, colst |-> colst, links |-> links, cf |-> cf, names |-> names]
 
 (* ---- the initial workbook ------------------------------------------------ *)
 Grid == {[s |-> 1, r |-> r, c |-> c, v |-> Num(r * 10 + c)] : r \in 1..4, c \in 1..4}
@@ -81,16 +82,18 @@ Names0 == {[name |-> "TAXRATE", ref |-> CellRef(1, 3, 2, TRUE, TRUE)]}
 Occupied(S) == {<<x.s, x.r, x.c>> : x \in S}
 Cells0 == {x \in Grid : <<x.s, x.r, x.c>> \notin Occupied(Formulas \cup Others)} \cup Formulas \cup Others
 
+Rowst0 == {7, 9}      \* rows and columns without cells: a band style and a cell style never meet
+Colst0 == {7, 9}
 Rowh0 == {<<2, 40>>, <<4, 60>>}
 Colw0 == {<<1, 120>>, <<3, 50>>, <<4, 50>>}     \* columns 3-4 share one descriptor
 Links0 == {<<1, 2>>, <<3, 3>>, <<4, 1>>, <<5, 3>>}    \* (5,3) holds a URL: the engine links it by itself
 Cf0 == [r1 |-> 2, c1 |-> 2, r2 |-> 3, c2 |-> 4, st |-> "ok", fref |-> CellRef(1, 5, 5, TRUE, TRUE)]
 SInit ==
   /\ cells = Cells0
-  /\ rowh = Rowh0 /\ colw = Colw0
+  /\ rowh = Rowh0 /\ colw = Colw0 /\ rowst = Rowst0 /\ colst = Colst0
   /\ links = Links0
   /\ cf = Cf0 /\ names = Names0
-  /\ prev = [cells |-> Cells0, rowh |-> Rowh0, colw |-> Colw0, links |-> Links0, cf |-> Cf0, names |-> Names0]
+  /\ prev = [cells |-> Cells0, rowh |-> Rowh0, colw |-> Colw0, rowst |-> Rowst0, colst |-> Colst0, links |-> Links0, cf |-> Cf0, names |-> Names0]
   /\ trail = <<>> /\ steps = 0
 
 (* ---- position maps (on one coordinate) ------------------------------------ *)
@@ -173,6 +176,8 @@ Apply(axis, sig, op, i, n, d, a) ==
   \* (the size of a freshly inserted row / column is left open: 0)
   /\ rowh' = IF axis = "r" THEN {<<sig[p[1]], p[2]>> : p \in {q \in rowh : sig[q[1]] # Bottom}} \cup (IF op = "ins" THEN {<<p, 0>> : p \in i..(i + n - 1)} ELSE {}) ELSE rowh
   /\ colw' = IF axis = "c" THEN {<<sig[p[1]], p[2]>> : p \in {q \in colw : sig[q[1]] # Bottom}} \cup (IF op = "ins" THEN {<<p, 0>> : p \in i..(i + n - 1)} ELSE {}) ELSE colw
+  /\ rowst' = IF axis = "r" THEN {sig[p] : p \in {q \in rowst : sig[q] # Bottom}} ELSE rowst
+  /\ colst' = IF axis = "c" THEN {sig[p] : p \in {q \in colst : sig[q] # Bottom}} ELSE colst
   /\ links' = IF axis = "r" THEN {<<sig[p[1]], p[2]>> : p \in {q \in links : sig[q[1]] # Bottom}}
               ELSE {<<p[1], sig[p[2]]>> : p \in {q \in links : sig[q[2]] # Bottom}}
   /\ cf' = LET asRange == RangeRef(1, cf.r1, cf.c1, cf.r2, cf.c2, FALSE, FALSE, FALSE, FALSE)
@@ -182,7 +187,7 @@ Apply(axis, sig, op, i, n, d, a) ==
   /\ names' = NM
   /\ prev' = Book
   /\ steps' = steps + 1
-  /\ trail' = Append(trail, [a |-> a, cells |-> cells', rowh |-> rowh', colw |-> colw', links |-> links', cf |-> cf', names |-> names'])
+  /\ trail' = Append(trail, [a |-> a, cells |-> cells', rowh |-> rowh', colw |-> colw', rowst |-> rowst', colst |-> colst', links |-> links', cf |-> cf', names |-> names'])
 
 InsRows(i, k) == Apply("r", SigIns(i, k, "r"), "ins", i, k, 0, [op |-> "insert_rows", s |-> 0, i |-> i, k |-> k])
 InsCols(i, k) == Apply("c", SigIns(i, k, "c"), "ins", i, k, 0, [op |-> "insert_cols", s |-> 0, i |-> i, k |-> k])
@@ -204,16 +209,16 @@ Clear(r, c) ==
             THEN [x EXCEPT !.v.keep = FALSE] ELSE x
           : x \in {y \in cells : ~(y.s = 1 /\ y.r = r /\ y.c = c)} })))
   /\ links' = links \ {<<r, c>>}
-  /\ UNCHANGED <<rowh, colw, cf, names>>
+  /\ UNCHANGED <<rowh, colw, rowst, colst, cf, names>>
   /\ prev' = Book
   /\ steps' = steps + 1
-  /\ trail' = Append(trail, [a |-> a, cells |-> cells', rowh |-> rowh', colw |-> colw', links |-> links', cf |-> cf', names |-> names'])
+  /\ trail' = Append(trail, [a |-> a, cells |-> cells', rowh |-> rowh', colw |-> colw', rowst |-> rowst', colst |-> colst', links |-> links', cf |-> cf', names |-> names'])
 Undo ==
   /\ trail # <<>> /\ trail[Len(trail)].a.op = "clear_contents"
-  /\ cells' = prev.cells /\ rowh' = prev.rowh /\ colw' = prev.colw /\ links' = prev.links /\ cf' = prev.cf /\ names' = prev.names
+  /\ cells' = prev.cells /\ rowh' = prev.rowh /\ colw' = prev.colw /\ rowst' = prev.rowst /\ colst' = prev.colst /\ links' = prev.links /\ cf' = prev.cf /\ names' = prev.names
   /\ prev' = Book
   /\ steps' = steps + 1
-  /\ trail' = Append(trail, [a |-> [op |-> "undo"], cells |-> cells', rowh |-> rowh', colw |-> colw', links |-> links', cf |-> cf', names |-> names'])
+  /\ trail' = Append(trail, [a |-> [op |-> "undo"], cells |-> cells', rowh |-> rowh', colw |-> colw', rowst |-> rowst', colst |-> colst', links |-> links', cf |-> cf', names |-> names'])
 (* cutting a linked cell and pasting it on an empty one moves content, style and link; what formulas that *)
 (* read the source become is another property's business (C04), so their references are left open        *)
 CutPaste(r, c, tr, tc) ==
@@ -227,10 +232,10 @@ CutPaste(r, c, tr, tc) ==
   /\ links' = (links \ {<<r, c>>}) \cup {<<tr, tc>>}
   /\ cf' = [cf EXCEPT !.st = "open", !.fref = [cf.fref EXCEPT !.st = "open"]]
   /\ names' = {[nm EXCEPT !.ref.st = "open"] : nm \in names}
-  /\ UNCHANGED <<rowh, colw>>
+  /\ UNCHANGED <<rowh, colw, rowst, colst>>
   /\ prev' = Book
   /\ steps' = steps + 1
-  /\ trail' = Append(trail, [a |-> a, cells |-> cells', rowh |-> rowh', colw |-> colw', links |-> links', cf |-> cf', names |-> names'])
+  /\ trail' = Append(trail, [a |-> a, cells |-> cells', rowh |-> rowh', colw |-> colw', rowst |-> rowst', colst |-> colst', links |-> links', cf |-> cf', names |-> names'])
 
 (* ---- C16: cut and paste moves meaning, copy and paste translates it -------------------------------- *)
 (* area: rows r1..r2, columns c1..c2 of sheet 1; pasted with its top-left corner at (ts, tr, tc)         *)
@@ -261,10 +266,10 @@ CutArea(A, ts, tr, tc) ==
               ELSE {p \in links : ~InArea(1, p[1], p[2], A)}
   /\ cf' = [cf EXCEPT !.st = "open", !.fref = [cf.fref EXCEPT !.st = "open"]]
   /\ names' = NM
-  /\ UNCHANGED <<rowh, colw>>
+  /\ UNCHANGED <<rowh, colw, rowst, colst>>
   /\ prev' = Book
   /\ steps' = steps + 1
-  /\ trail' = Append(trail, [a |-> a, cells |-> cells', rowh |-> rowh', colw |-> colw', links |-> links', cf |-> cf', names |-> names', linksopen |-> (ts # 1)])
+  /\ trail' = Append(trail, [a |-> a, cells |-> cells', rowh |-> rowh', colw |-> colw', rowst |-> rowst', colst |-> colst', links |-> links', cf |-> cf', names |-> names', linksopen |-> (ts # 1)])
 
 (* a copied formula: relative parts shifted by the paste offset, absolute parts and explicit sheets kept *)
 Shift1(p, abs, d) == IF abs THEN p ELSE p + d
@@ -294,10 +299,10 @@ CopyArea(A, ts, tr, tc) ==
                : x \in {y \in cells : ~InDest(y.s, y.r, y.c, A, ts, dr, dc)}} IN
   /\ cells' = P(P(P(pasted \cup stay)))
   /\ cf' = [cf EXCEPT !.st = "open", !.fref = [cf.fref EXCEPT !.st = "open"]]     \* whether formats are copied along is not the statement's business
-  /\ UNCHANGED <<rowh, colw, links, names>>
+  /\ UNCHANGED <<rowh, colw, rowst, colst, links, names>>
   /\ prev' = Book
   /\ steps' = steps + 1
-  /\ trail' = Append(trail, [a |-> a, cells |-> cells', rowh |-> rowh', colw |-> colw', links |-> links', cf |-> cf', names |-> names', linksopen |-> TRUE])
+  /\ trail' = Append(trail, [a |-> a, cells |-> cells', rowh |-> rowh', colw |-> colw', rowst |-> rowst', colst |-> colst', links |-> links', cf |-> cf', names |-> names', linksopen |-> TRUE])
 
 Areas == {[r1 |-> 2, r2 |-> 2, c1 |-> 2, c2 |-> 2], [r1 |-> 3, r2 |-> 3, c1 |-> 3, c2 |-> 3], [r1 |-> 1, r2 |-> 1, c1 |-> 1, c2 |-> 1], [r1 |-> 4, r2 |-> 4, c1 |-> 3, c2 |-> 4],
           [r1 |-> 2, r2 |-> 3, c1 |-> 2, c2 |-> 3], [r1 |-> 1, r2 |-> 3, c1 |-> 1, c2 |-> 2], [r1 |-> 3, r2 |-> 3, c1 |-> 1, c2 |-> 4], [r1 |-> 1, r2 |-> 5, c1 |-> 5, c2 |-> 5]}
@@ -321,7 +326,7 @@ IsInsDel ==
   trail[2].a.i = trail[1].a.i /\ trail[2].a.k = trail[1].a.k
 (* ("provided the insertion pushed no reference off the grid": formulas 10 and 11 sit at the edge and are left out) *)
 AwayFromEdge(S) == {x \in S : x.v.id \notin {10, 11}}
-InsertDeleteIdentity == IsInsDel => (AwayFromEdge(cells) = AwayFromEdge(Cells0) /\ rowh = Rowh0 /\ colw = Colw0 /\ links = Links0 /\ cf = Cf0 /\ names = Names0)
+InsertDeleteIdentity == IsInsDel => (AwayFromEdge(cells) = AwayFromEdge(Cells0) /\ rowst = Rowst0 /\ colst = Colst0 /\ rowh = Rowh0 /\ colw = Colw0 /\ links = Links0 /\ cf = Cf0 /\ names = Names0)
 (* C33 on the design: clear then undo is the identity *)
 ClearUndoIdentity == (Len(trail) = 2 /\ trail[2].a.op = "undo") => (cells = Cells0 /\ links = Links0 /\ cf = Cf0)
 
@@ -333,5 +338,5 @@ InsertLosesNothing == [][ (trail' # trail /\ trail'[Len(trail')].a.op \in {"inse
                     (Cardinality(cells') = Cardinality(cells) /\
                      \A x \in cells' : x.v.k = "f" => \A j \in 1..Len(x.v.refs) : (x.v.refs[j].st = "ok" \/ \E y \in cells : y.v.id = x.v.id /\ y.v.k = "f" /\ (y.v.refs[j].st # "ok" \/ y.v.refs[j].r2 > 1000 \/ y.v.refs[j].c2 > 1000))) ]_vars
 
-Emit == (steps = MaxSteps) => PrintT(<<"BEHAVIOUR", ToJson([init |-> [cells |-> Cells0, rowh |-> Rowh0, colw |-> Colw0, links |-> Links0, cf |-> Cf0, names |-> Names0], steps |-> trail])>>)
+Emit == (steps = MaxSteps) => PrintT(<<"BEHAVIOUR", ToJson([init |-> [cells |-> Cells0, rowh |-> Rowh0, colw |-> Colw0, rowst |-> Rowst0, colst |-> Colst0, links |-> Links0, cf |-> Cf0, names |-> Names0], steps |-> trail])>>)
 =============================================================================
